@@ -10,9 +10,19 @@ use grin_core::core::block::HeaderVersion;
 use grin_core::core::hash::Hashed;
 use grin_core::global::{self, ChainTypes};
 use grin_core::pow::{Difficulty, Proof, ProofOfWork};
+use chrono::{DateTime, Duration, Utc};
+use grin_chain::types::NoopAdapter;
+use grin_chain::{Chain, Options};
+use grin_core::core::block::UntrustedBlockHeader;
+use grin_core::core::hash::Hash;
+use grin_core::core::{Block, BlockHeader};
+use grin_core::ser::{self, DeserializationMode, ProtocolVersion};
+use grin_core::{genesis, libtx, pow};
+use grin_keychain::{ExtKeychain, ExtKeychainPath, Keychain};
 use gvharness::*;
 use std::collections::BTreeMap;
 use std::panic::AssertUnwindSafe;
+use std::sync::Arc;
 
 pub const CTS: [(ChainTypes, &str); 4] = [
 	(ChainTypes::Mainnet, "main"),
@@ -505,7 +515,513 @@ fn run_diff(out: &mut Out, rng: &mut Rng, thorough: bool) {
 	stats.dump(out, "diff");
 }
 
-fn run_chain(_out: &mut Out, _rng: &mut Rng, _thorough: bool) {}
+// ---------------------------------------------------------------------------------------------
+// chain mode
+// ---------------------------------------------------------------------------------------------
+
+fn chain_err_class(e: &grin_chain::Error) -> String {
+	use grin_chain::Error as E;
+	match e {
+		E::StoreErr(se, _) => {
+			let d = format!("{:?}", se);
+			if d.contains("NotFound") {
+				"Orphan".to_string()
+			} else {
+				"StoreErr".to_string()
+			}
+		}
+		E::Orphan => "Orphan".to_string(),
+		_ => {
+			let d = format!("{:?}", e);
+			if d.contains("TooHeavy") {
+				"TooHeavy".to_string()
+			} else {
+				d.chars().take_while(|c| c.is_alphanumeric()).collect()
+			}
+		}
+	}
+}
+
+fn show_hdr(h: &BlockHeader) -> String {
+	let h64 = pc(|| h.pow.proof.hash().to_u64()).unwrap_or(0);
+	format!(
+		"{}:{}:{}:{}:{}:{}:{}:{}:{}",
+		h.height,
+		h.timestamp.timestamp(),
+		h.version.0,
+		h.pow.total_difficulty.to_num(),
+		h.pow.secondary_scaling,
+		h.pow.proof.edge_bits,
+		h64,
+		h.output_mmr_size,
+		h.kernel_mmr_size
+	)
+}
+
+fn set_ts(h: &mut BlockHeader, ts: i64) {
+	h.timestamp = DateTime::<Utc>::from_timestamp(ts, 0).unwrap();
+}
+
+/// re-mine the header so that its PoW is valid for its (mutated) contents; returns false if
+/// mining is impossible for these contents (e.g. edge bits the solver cannot handle)
+fn remine(h: &mut BlockHeader) -> bool {
+	let ts = h.timestamp;
+	let eb = global::min_edge_bits();
+	h.pow.proof.edge_bits = eb;
+	let r = pc(|| {
+		let mut hh = h.clone();
+		pow::pow_size(&mut hh, Difficulty::from_num(1), global::proofsize(), eb).map(|_| hh)
+	});
+	match r {
+		Some(Ok(hh)) => {
+			*h = hh;
+			h.timestamp == ts
+		}
+		_ => false,
+	}
+}
+
+struct Mutant {
+	kind: String,
+	h: BlockHeader,
+	/// a rule other than the cycle verification itself is violated, so the header must be
+	/// rejected whatever the verifier says (a header whose PoW does not verify must be rejected
+	/// in any case; the oracle adds that from the verifier's own answer)
+	must_reject: bool,
+}
+
+/// every single-field mutation of a valid next header `v` (parent `prev`, grand-parent hash `gp`)
+fn mutants(v: &BlockHeader, prev: &BlockHeader, gp: Option<Hash>, rng: &mut Rng) -> Vec<Mutant> {
+	let mut out: Vec<Mutant> = vec![];
+	let mut add = |kind: &str, f: &dyn Fn(&mut BlockHeader), remined: bool, must_reject: bool| {
+		let mut h = v.clone();
+		f(&mut h);
+		if remined {
+			if !remine(&mut h) {
+				return;
+			}
+		}
+		out.push(Mutant {
+			kind: format!("{}{}", kind, if remined { "+pow" } else { "" }),
+			h,
+			must_reject,
+		});
+	};
+	let pts = prev.timestamp.timestamp();
+	let far = Utc::now().timestamp() + 86_400 * 365;
+	let big = rng.range(1 << 20, 1 << 40);
+	let rnd_hash = Hash::from_vec(&rng.bytes(32));
+	let rnd_hash2 = Hash::from_vec(&rng.bytes(32));
+	for remined in [false, true] {
+		add("height+1", &|h| h.height += 1, remined, true);
+		add("height-1", &|h| h.height = h.height.wrapping_sub(1), remined, true);
+		add("height+3", &|h| h.height += 3, remined, true);
+		add("ts=prev", &|h| set_ts(h, pts), remined, true);
+		add("ts=prev-1", &|h| set_ts(h, pts - 1), remined, true);
+		add("ts=prev-14340", &|h| set_ts(h, pts - 14340), remined, true);
+		add("ts=0", &|h| set_ts(h, 0), remined, true);
+		// a far-future timestamp is not a pipeline rule (only the network decode checks it)
+		add("ts=far-future", &|h| set_ts(h, far), remined, false);
+		// a different later timestamp with fresh PoW is simply another valid header
+		add("ts+1", &|h| set_ts(h, h.timestamp.timestamp() + 1), remined, false);
+		add("version+1", &|h| h.version = HeaderVersion(h.version.0 + 1), remined, true);
+		add(
+			"version-1",
+			&|h| h.version = HeaderVersion(h.version.0.wrapping_sub(1)),
+			remined,
+			true,
+		);
+		add("prev_hash=random", &|h| h.prev_hash = rnd_hash, remined, true);
+		if let Some(g) = gp {
+			add("prev_hash=grandparent", &|h| h.prev_hash = g, remined, true);
+		}
+		add("prev_root=random", &|h| h.prev_root = rnd_hash2, remined, true);
+		add(
+			"total_difficulty+1",
+			&|h| h.pow.total_difficulty = Difficulty::from_num(h.pow.total_difficulty.to_num() + 1),
+			remined,
+			true,
+		);
+		add(
+			"total_difficulty-1",
+			&|h| h.pow.total_difficulty = Difficulty::from_num(h.pow.total_difficulty.to_num() - 1),
+			remined,
+			true,
+		);
+		add(
+			"total_difficulty=prev",
+			&|h| h.pow.total_difficulty = prev.pow.total_difficulty,
+			remined,
+			true,
+		);
+		add(
+			"total_difficulty+big",
+			&|h| h.pow.total_difficulty = Difficulty::from_num(h.pow.total_difficulty.to_num() + big),
+			remined,
+			true,
+		);
+		// after the last hard fork the scaling field is free (extra nonce bits)
+		let sc_must = v.version.0 < 5;
+		add(
+			"secondary_scaling+1",
+			&|h| h.pow.secondary_scaling = h.pow.secondary_scaling.wrapping_add(1),
+			remined,
+			sc_must,
+		);
+		add(
+			"secondary_scaling-1",
+			&|h| h.pow.secondary_scaling = h.pow.secondary_scaling.wrapping_sub(1),
+			remined,
+			sc_must,
+		);
+		add(
+			"output_mmr_size=prev",
+			&|h| h.output_mmr_size = prev.output_mmr_size,
+			remined,
+			true,
+		);
+		add(
+			"kernel_mmr_size=prev",
+			&|h| h.kernel_mmr_size = prev.kernel_mmr_size,
+			remined,
+			true,
+		);
+		// size-1 is not a valid MMR size but may still count more leaves than the parent's:
+		// header-level validation only requires the leaf counts to grow
+		let k1_grows = grin_core::core::pmmr::n_leaves(v.kernel_mmr_size.saturating_sub(1))
+			> grin_core::core::pmmr::n_leaves(prev.kernel_mmr_size);
+		add(
+			"kernel_mmr_size-1",
+			&|h| h.kernel_mmr_size = h.kernel_mmr_size.saturating_sub(1),
+			remined,
+			!k1_grows,
+		);
+		add("output_mmr_size=0", &|h| h.output_mmr_size = 0, remined, true);
+		// more outputs than a block can carry
+		add(
+			"output_mmr_size+heavy",
+			&|h| h.output_mmr_size = grin_core::core::pmmr::insertion_to_pmmr_index(
+				grin_core::core::pmmr::n_leaves(h.output_mmr_size) + 40,
+			),
+			remined,
+			true,
+		);
+	}
+	// fields outside the pre-PoW bytes / PoW itself: no re-mining variant
+	// (with 8-cycles on 2^10 edges the same nonces form a cycle in the next graph size about
+	// once in 256 headers; then the header simply has a valid proof of work)
+	add("nonce+1", &|h| h.pow.nonce = h.pow.nonce.wrapping_add(1), false, false);
+	add(
+		"edge_bits+1",
+		&|h| h.pow.proof.edge_bits += 1,
+		false,
+		false,
+	);
+	add("edge_bits-1", &|h| h.pow.proof.edge_bits -= 1, false, true);
+	add("edge_bits=29", &|h| h.pow.proof.edge_bits = 29, false, false);
+	let k = rng.below(v.pow.proof.nonces.len() as u64) as usize;
+	add(
+		"proof_nonce^1",
+		&|h| h.pow.proof.nonces[k] ^= 1,
+		false,
+		false,
+	);
+	add(
+		"proof_nonce_swap",
+		&|h| h.pow.proof.nonces.swap(0, 1),
+		false,
+		false,
+	);
+	out
+}
+
+struct Node {
+	chain: Chain,
+}
+
+fn open_chain(dir: &str, genesis: &Block) -> Node {
+	let chain = Chain::init(
+		dir.to_string(),
+		Arc::new(NoopAdapter {}),
+		genesis.clone(),
+		pow::verify_size,
+		false,
+		None,
+	)
+	.unwrap();
+	Node { chain }
+}
+
+fn build_next(chain: &Chain, kc: &ExtKeychain, n: u32, gap: i64) -> Block {
+	let prev = chain.head_header().unwrap();
+	let next = consensus::next_difficulty(prev.height + 1, chain.difficulty_iter().unwrap());
+	let pk = ExtKeychainPath::new(1, n, 0, 0, 0).to_identifier();
+	let reward = libtx::reward::output(kc, &libtx::ProofBuilder::new(kc), &pk, 0, false).unwrap();
+	let mut b = Block::new(&prev, &[], next.difficulty, reward).unwrap();
+	b.header.timestamp = prev.timestamp + Duration::seconds(gap);
+	b.header.pow.secondary_scaling = next.secondary_scaling;
+	chain.set_txhashset_roots(&mut b).unwrap();
+	let eb = global::min_edge_bits();
+	b.header.pow.proof.edge_bits = eb;
+	pow::pow_size(&mut b.header, next.difficulty, global::proofsize(), eb).unwrap();
+	b
+}
+
+/// the window `validate_header` would compute for a header whose parent hash is `prev_hash`
+fn window_at(chain: &Chain, prev_hash: Hash) -> Vec<HeaderDifficultyInfo> {
+	grin_chain::store::DifficultyIter::from(prev_hash, chain.store()).collect()
+}
+
+fn deliver_line(
+	out: &mut Out,
+	stats: &mut Stats,
+	subject: &Chain,
+	m: &Mutant,
+	valid: &BlockHeader,
+	via: &str,
+	skip_pow: bool,
+	body: Option<&Block>,
+) {
+	let h = &m.h;
+	let prev = subject.get_block_header(&h.prev_hash).ok();
+	let window = window_at(subject, h.prev_hash);
+	let powok = pc(|| pow::verify_size(h).is_ok()).unwrap_or(false);
+	let rootok = h.prev_hash == valid.prev_hash && h.prev_root == valid.prev_root;
+	let opts = if skip_pow { Options::SKIP_POW } else { Options::NONE };
+	let res = match via {
+		"pbh" => pc(|| subject.process_block_header(h, opts).map(|_| ())),
+		"sync" => pc(|| {
+			let sync_head = subject.header_head().unwrap();
+			subject.sync_block_headers(&[h.clone()], sync_head, opts).map(|_| ())
+		}),
+		_ => pc(|| {
+			let mut b = body.unwrap().clone();
+			b.header = h.clone();
+			subject.process_block(b, opts).map(|_| ())
+		}),
+	};
+	let class = match &res {
+		None => "panic".to_string(),
+		Some(Ok(())) => "ok".to_string(),
+		Some(Err(e)) => chain_err_class(e),
+	};
+	stats.hit(&format!("res_{}", class));
+	stats.hit(&format!("via_{}", via));
+	stats.hit(&format!("v{}", valid.version.0));
+	if class == "ok" && (m.must_reject || !powok) && !skip_pow {
+		out.raw(&format!(
+			"#ORACLE-FAIL C04 mutated header accepted via {}: mutation={} valid={} mutated={} prev={}",
+			via,
+			m.kind,
+			show_hdr(valid),
+			show_hdr(h),
+			prev.as_ref().map(show_hdr).unwrap_or("none".into())
+		));
+	}
+	if class == "panic" {
+		out.raw(&format!(
+			"#ORACLE-FAIL C04 header pipeline panicked via {}: mutation={} mutated={}",
+			via,
+			m.kind,
+			show_hdr(h)
+		));
+	}
+	out.raw(&format!("# {} {}", via, m.kind));
+	out.line(
+		&format!(
+			"cons {} {} {} {} {} {} {}",
+			via,
+			if skip_pow { 1 } else { 0 },
+			if powok { 1 } else { 0 },
+			if rootok { 1 } else { 0 },
+			prev.as_ref().map(show_hdr).unwrap_or("none".into()),
+			show_hdr(h),
+			show_window(&window)
+		),
+		&class,
+	);
+}
+
+fn run_chain(out: &mut Out, rng: &mut Rng, thorough: bool) {
+	global::set_local_chain_type(ChainTypes::AutomatedTesting);
+	let work = std::env::var("VERIF_WORK").unwrap_or_else(|_| "/verif/work/cons-chain.d".to_string());
+	let _ = std::fs::remove_dir_all(format!("{}/builder", work));
+	let _ = std::fs::remove_dir_all(format!("{}/subject", work));
+	std::fs::create_dir_all(&work).unwrap();
+	let mut stats = Stats(BTreeMap::new());
+	let seed = rng.bytes(32);
+	let kc = ExtKeychain::from_seed(&seed, false).unwrap();
+	let genesis = {
+		let key_id = ExtKeychain::derive_key_id(0, 1, 0, 0, 0);
+		let reward =
+			libtx::reward::output(&kc, &libtx::ProofBuilder::new(&kc), &key_id, 0, false).unwrap();
+		genesis::genesis_dev().with_reward(reward.0, reward.1)
+	};
+	let builder = open_chain(&format!("{}/builder", work), &genesis);
+	let subject = open_chain(&format!("{}/subject", work), &genesis);
+	let n_blocks: u32 = if thorough { 75 } else { 17 };
+	// heights at which the full mutation set is delivered (every era; all of them in thorough)
+	let full_every = if thorough { 1 } else { 1 };
+	for n in 1..=n_blocks {
+		let gap = match rng.below(6) {
+			0 => 1,
+			1 => rng.range(2, 30) as i64,
+			2 => 60,
+			3 => rng.range(61, 600) as i64,
+			4 => rng.range(600, 20000) as i64,
+			_ => rng.range(30, 120) as i64,
+		};
+		let b = build_next(&builder.chain, &kc, n, gap);
+		let v = b.header.clone();
+		let prev = subject.chain.get_block_header(&v.prev_hash).unwrap();
+		let gp = if prev.height > 0 { Some(prev.prev_hash) } else { None };
+		// the model's DifficultyIter against the real one
+		{
+			let mut hs = vec![];
+			let mut cur = prev.clone();
+			loop {
+				hs.push(show_hdr(&cur));
+				if cur.height == 0 {
+					break;
+				}
+				cur = subject.chain.get_block_header(&cur.prev_hash).unwrap();
+			}
+			out.line(
+				&format!("cons diter [{}]", hs.join(",")),
+				&show_window(&window_at(&subject.chain, v.prev_hash)),
+			);
+		}
+		if n % full_every == 0 {
+			let ms = mutants(&v, &prev, gp, rng);
+			for (i, m) in ms.iter().enumerate() {
+				stats.hit(&format!("mut_{}", m.kind));
+				// full-block delivery only for headers that must be rejected (a header-valid
+				// variant with its body would be a legitimate competing block)
+				let via = match (i + n as usize) % 5 {
+					0 => "sync",
+					1 if m.must_reject || !pc(|| pow::verify_size(&m.h).is_ok()).unwrap_or(false) => "pb",
+					_ => "pbh",
+				};
+				deliver_line(out, &mut stats, &subject.chain, m, &v, via, false, Some(&b));
+				if (i + n as usize) % 7 == 3 {
+					// the same mutation once more under SKIP_POW (different header hash not needed:
+					// a rejected header is not stored; an accepted one short-cuts as known => ok)
+					// (a header's hash covers only its proof nonces, so the variant is re-mined:
+					// otherwise an accepted SKIP_POW header would sit in the store under the hash
+					// of the valid header and short-cut every later delivery as "already known")
+					let mut m2 = Mutant {
+						kind: format!("{}/skip_pow", m.kind),
+						h: m.h.clone(),
+						must_reject: false,
+					};
+					m2.h.pow.nonce = m2.h.pow.nonce.wrapping_add(0x1000_0000);
+					if remine(&mut m2.h) {
+						deliver_line(out, &mut stats, &subject.chain, &m2, &v, "pbh", true, None);
+					}
+				}
+			}
+		}
+		// network decode of the valid header and of future-dated / malformed variants
+		untrusted_lines(out, &mut stats, &v, rng);
+		// finally the valid header and block themselves
+		let vm = Mutant {
+			kind: "valid".to_string(),
+			h: v.clone(),
+			must_reject: false,
+		};
+		deliver_line(out, &mut stats, &subject.chain, &vm, &v, "pbh", false, None);
+		let r = subject.chain.process_block(b.clone(), Options::NONE);
+		if let Err(e) = &r {
+			out.raw(&format!(
+				"#ORACLE-FAIL C04 valid block rejected by the subject chain at height {}: {:?}",
+				v.height, e
+			));
+		}
+		builder.chain.process_block(b, Options::MINE).unwrap();
+		let hh = subject.chain.head().unwrap();
+		if hh.height != v.height || hh.last_block_h != v.hash() {
+			out.raw(&format!(
+				"#ORACLE-FAIL C04 subject head is not the valid block at height {} (head height {})",
+				v.height, hh.height
+			));
+		}
+	}
+	stats.dump(out, "chain");
+}
+
+fn untrusted_lines(out: &mut Out, stats: &mut Stats, v: &BlockHeader, rng: &mut Rng) {
+	let ftl = *rng.pick(&[0u64, 300, 720, 100_000]);
+	global::set_local_future_time_limit(ftl);
+	let now = Utc::now().timestamp();
+	let mut cases: Vec<(String, BlockHeader)> = vec![("valid".into(), v.clone())];
+	let mut add = |kind: &str, f: &dyn Fn(&mut BlockHeader), remined: bool| {
+		let mut h = v.clone();
+		f(&mut h);
+		if remined && !remine(&mut h) {
+			return;
+		}
+		cases.push((kind.to_string(), h));
+	};
+	let f1 = now + ftl as i64 + 120;
+	let f0 = now + ftl as i64 - 120;
+	add("future+pow", &|h| set_ts(h, f1), true);
+	add("near-future+pow", &|h| set_ts(h, f0), true);
+	add("future", &|h| set_ts(h, f1), false);
+	add("version+1+pow", &|h| h.version = HeaderVersion(h.version.0 + 1), true);
+	add("version=0+pow", &|h| h.version = HeaderVersion(0), true);
+	add("edge_bits-1", &|h| h.pow.proof.edge_bits -= 1, false);
+	add("edge_bits=29", &|h| h.pow.proof.edge_bits = 29, false);
+	add("nonce+1", &|h| h.pow.nonce += 1, false);
+	add(
+		"global-weight+pow",
+		&|h| h.output_mmr_size = grin_core::core::pmmr::insertion_to_pmmr_index(12 * (h.height + 2)),
+		true,
+	);
+	add(
+		"global-weight-ok+pow",
+		&|h| h.output_mmr_size = grin_core::core::pmmr::insertion_to_pmmr_index(10 * (h.height + 1)),
+		true,
+	);
+	for (kind, h) in cases {
+		let bytes = match ser::ser_vec(&h, ProtocolVersion::local()) {
+			Ok(b) => b,
+			Err(_) => continue,
+		};
+		let sizeok = pc(|| pow::verify_size(&h).is_ok()).unwrap_or(false);
+		let r = pc(|| {
+			ser::deserialize::<UntrustedBlockHeader, _>(
+				&mut &bytes[..],
+				ProtocolVersion::local(),
+				DeserializationMode::default(),
+			)
+		});
+		let class = match r {
+			None => "panic".to_string(),
+			Some(Ok(_)) => "ok".to_string(),
+			Some(Err(ser::Error::InvalidBlockVersion)) => "InvalidBlockVersion".to_string(),
+			Some(Err(ser::Error::CorruptedData)) => "CorruptedData".to_string(),
+			Some(Err(e)) => format!("Other:{:?}", e).replace(' ', "_"),
+		};
+		stats.hit(&format!("uhdr_{}", class));
+		if class == "ok" && h.timestamp.timestamp() > now + ftl as i64 + 60 {
+			out.raw(&format!(
+				"#ORACLE-FAIL C04 header beyond the future-time limit decoded from the network: now={} ftl={} hdr={}",
+				now, ftl, show_hdr(&h)
+			));
+		}
+		out.raw(&format!("# uhdr {}", kind));
+		out.line(
+			&format!(
+				"cons uhdr auto {} {} {} {}",
+				now,
+				ftl,
+				if sizeok { 1 } else { 0 },
+				show_hdr(&h)
+			),
+			&class,
+		);
+	}
+}
 
 fn main() {
 	quiet_panics();
